@@ -78,8 +78,9 @@ def run(ck):
                                        bandwidth_mode=bwmode, reg=1e-2, return_best=(i % 2 == 0), **extra)
         xr.seed_all(1000 + i + ck.seed)
         model = xr.xRFM(rfm_params=params, max_leaf_size=L, n_trees=n_trees, overlap_fraction=f, verbose=False,
-                        split_method=['top_vector_agop_on_subset', 'random_pca', 'linear', 'pca'][i % 4],
-                        use_temperature_tuning=False, classification_mode=cmode, refill_size=20)
+                        split_method=('random_global_agop' if i % 8 == 5 else ['top_vector_agop_on_subset', 'random_pca', 'linear', 'pca'][i % 4]),
+                        use_temperature_tuning=False, classification_mode=cmode, refill_size=20,
+                        n_tree_iters=(1 if i % 8 == 5 else 0))
         desc = dict(i=i, kernel=kern, task=task, cmode=cmode, n_trees=n_trees, n=n, L=L, d=d, f=f, diag=diag, bw=bwmode,
                     exponent=exponent, seed=ck.seed)
         try:
